@@ -247,6 +247,7 @@ def run(ctx, F):
     ctx.judge(ra == want_r, "C12.pause-table", "release: Full and FinalMark release both the Immix space and the common spaces", expected=str(sorted(want_r)), found=str(sorted(ra)), where=where(rel), key="C12.pause-table|release")
     _barrier_armed_all_spaces(ctx, F)
     _edge_callbacks(ctx, F)
+    _los_all_objects(ctx, F)
 
 
 def _barrier_armed_all_spaces(ctx, F):
@@ -307,3 +308,22 @@ def _edge_callbacks(ctx, F):
     users = {cs.fn.q for cs in callers(F, "util::scanning_helper::visit_children_non_moving")} | {cs.fn.q for cs in callers(F, "util::scanning_helper::visit_children_moving")}
     ctx.judge(any("concurrent_marking_work" in u for u in users), "C12.visit-children", "concurrent marking scans objects through visit_children", expected="ConcurrentTraceObjects uses the helper", found=str(sorted(short(u) for u in users))[:200],
               where=where(vc), key="C12.visit-children|used")
+
+
+def _los_all_objects(ctx, F):
+    """C12.barrier-armed-all-spaces (LOS): after the treadmill flip at the initial mark every large object sits in from_space or the
+    collect nursery; arming (and disarming) the barrier must therefore enumerate ALL four sets."""
+    for meth in ("set_side_log_bits", "clear_side_log_bits"):
+        g = F.fn("<policy::largeobjectspace::LargeObjectSpace as policy::space::Space>::%s" % meth)
+        en = [c for c in live_calls(g) if c.name == "enumerate_objects"]
+        ok = len(en) == 1 and g.cfg.must_pass([en[0].bb]) and const_arg(g.flow.arg_tree(en[0], 2)) is True
+        ctx.judge(ok, "C12.barrier-armed-all-spaces", "LargeObjectSpace::%s visits every large object" % meth, expected="treadmill.enumerate_objects(.., all = true)",
+                  found=str([const_arg(g.flow.arg_tree(c, 2)) for c in en]), where=where(g), key="C12.barrier-armed-all-spaces|los|" + meth)
+    te = F.fn("util::treadmill::TreadMill::enumerate_objects")
+    sets = set()
+    for c in live_calls(te):
+        for i in range(len(c.args)):
+            for m in re.findall(r"\.(alloc_nursery|collect_nursery|from_space|to_space)\b", show(strip(te.flow.arg_tree(c, i)))):
+                sets.add(m)
+    ctx.judge(sets == {"alloc_nursery", "collect_nursery", "from_space", "to_space"}, "C12.barrier-armed-all-spaces", "TreadMill::enumerate_objects can reach all four sets", expected="all four sets visited when all = true",
+              found=str(sorted(sets)), where=where(te), key="C12.barrier-armed-all-spaces|treadmill")
